@@ -391,6 +391,45 @@ class RecordIdentity(Contract):
             e.prove(f'C06/record-identity/{key}-decides', separated(key, st.attrs_a.sym_getitem(I, key)))
 
 
+@register
+class PoolCopy(Contract):
+    """copy.copy(pool) - what the fusion loop of callVariant narrows down per fusion - has its OWN table of series: storing a series under a
+    transcript in the copy leaves the table of the original as it was (the table handed to the new pool is a copy of the old one, not the
+    old one), and it is a pool of the same class over the same annotation"""
+    path, qualname, props = 'moPepGen/seqvar/VariantRecordPool.py', 'VariantRecordPool.__copy__', ('C05', 'C06', 'C07')
+    assumptions = ('assumed: copy.copy of a dict is a new dict with the same entries; copy.copy of the annotation is an annotation with the same content',)
+
+    def setup(self, I):
+        st = types.SimpleNamespace(made=None)
+        st.data, st.anno = SymObj('SeriesTable06c'), SymObj('Anno06c')
+        st.pool = SymObj('VariantRecordPool', data=st.data, anno=st.anno)
+        st.args = [st.pool]
+        self._cur = st
+        return st
+
+    @property
+    def models(self):
+        c = self
+
+        def inst(reg):
+            reg.ext_('copy.copy', lambda I, a, k: SymObj('CopyOf06c', of=a[0]))
+
+            def ctor(I, a, k):
+                names = ('data', 'anno')
+                b = {**dict(zip(names, a)), **k}
+                c._cur.made = b
+                return SymObj('VariantRecordPool', data=b.get('data'), anno=b.get('anno'))
+            reg.ctor_('VariantRecordPool', ctor)
+        return (inst,)
+
+    def post_return(self, I, st, ret):
+        b = st.made or {}
+        d, a = b.get('data'), b.get('anno')
+        I.e.prove('C05/pool-copy/the-copy-has-its-own-table-of-series-with-the-same-entries', isinstance(d, SymObj) and d.cls == 'CopyOf06c' and d.fields['of'] is st.data)
+        I.e.prove('C05/pool-copy/over-the-same-annotation', a is st.anno or (isinstance(a, SymObj) and a.cls == 'CopyOf06c' and a.fields['of'] is st.anno))
+        I.e.prove('C05/pool-copy/a-pool-of-the-same-class', isinstance(ret, SymObj) and ret.cls == 'VariantRecordPool' and st.made is not None)
+
+
 from pyvc.native import NativeCheck
 
 
